@@ -503,6 +503,11 @@ def run_c14_steps(ctx, ses, plan_steps):
             # an earlier doubly-faulted save left a free slot between generations: a later rotation or restore may
             # legitimately close it (same generations, same order)
             hit_rollback = True
+        if not failed:
+            state["aside_gen"] = None       # (a completed save removes a copy left set aside)
+        elif state.get("aside_gen") is not None:
+            # an earlier failing roll-back left the oldest copy set aside: this roll-back may put it back into the free slot
+            hit_rollback = True
         if failed and state.get("slots_before") is not None and hit_rollback:
             # the fault fired again after the save had already failed (a transient error that outlasts the first
             # failure also hits the moving-back): the statement only demands that nothing is lost and order is kept
@@ -510,12 +515,17 @@ def run_c14_steps(ctx, ses, plan_steps):
             have = [x for x in slots if x is not None]
             had = [x for x in state["slots_before"] if x is not None]
             aside = os.path.exists(os.path.join(ses.dir, "model_BAK_OLD"))
-            if have != had and not (aside and have == had[:-1]):
+            back = state.get("aside_gen") is not None and have == had + [state["aside_gen"]]
+            if back:
+                state["aside_gen"] = None
+                ctx.count("set_aside_copy_moved_back_by_a_later_rollback", 1, "reach")
+            elif have != had and not (aside and have == had[:-1]):
                 # (when the error outlasts the moving-back of the set-aside oldest copy, that copy stays where it was set
                 # aside - still on disk, the others in order: all a rollback that is itself failing can do)
                 raise Violation("C14/failed-save-lost-a-kept-generation/" + what, {"before": state["slots_before"], "after": slots})
-            if have != had:
+            elif have != had:
                 ctx.count("oldest_copy_left_set_aside_by_a_failing_rollback", 1, "reach")
+                state["aside_gen"] = had[-1]
         elif failed and state.get("slots_before") is not None and slots != state["slots_before"]:
             # a failed save leaves no residue: the same generations in the same slots as before the attempt
             raise Violation("C14/failed-save-changed-the-kept-generations/" + what, {"before": state["slots_before"], "after": slots})
